@@ -1,4 +1,6 @@
 """C08 - simplify preserves meaning."""
+import itertools
+
 from .. import absyn as A
 from .. import gen, hplapi, monitors, semantic as S, shrink
 from ..model import eval as E
@@ -262,6 +264,25 @@ def run(ctx):
                         case = S.Case(e, S.SS_THIS, {'A': S.SS_ALIAS}, 'expression')
                         handle(case, S.ss_envs(e), f'rangeagg:{fn}|{lo}|{hi}|{exlo}{exhi}|{e[0]}{e[1] if e[0] == "bin" else ""}', 'range-aggregate')
                         ctx.count('range_aggregate_terms')
+
+    # 1e. membership of a literal / field / bare variable in sets of up to three such members (a bare variable may
+    # take any value: only literal members decide a membership statically)
+    pool = (A.num('0'), A.num('1'), A.num('2'), A.fld('x'), A.var('V'), ('field', A.var('A'), 'v'))
+    venvs = [E.Env({'x': x, 'y': 0, 'p': False, 'q': False, 's': 'a', 'xs': [0, 1], 'bs': [True]},
+                   {'A': {'v': av, 'b': False, 'ys': [1]}, 'V': vv}) for x in (0, 1, 2) for vv in (0, 1, 2) for av in (0, 1)]
+    idx = 0
+    for left in (A.num('0'), A.num('1'), A.fld('x'), A.var('V')):
+        for k in (1, 2, 3):
+            for members in itertools.product(pool, repeat=k):
+                idx += 1
+                if not ctx.mine(idx):
+                    continue
+                e = ('bin', 'in', left, ('set', tuple(members)))
+                if idx % 3 == 0:
+                    e = gen.pick(rng, (A.not_(e), ('bin', 'or', e, A.fld('p')), ('bin', 'and', A.fld('p'), e)))
+                case = S.Case(e, S.SS_THIS, {'A': S.SS_ALIAS}, 'expression')
+                handle(case, venvs, f'member:{A.shape(e)}|{k}', 'membership')
+                ctx.count('membership_terms')
 
     # 2. random typed terms, simplifier-biased
     for n in range(ctx.share(B['random'])):
